@@ -3,6 +3,8 @@ CONSTANTS
   Ops = {"Neg","Identity","Add","Sub","Constant","Split","Clip","If","Call"}
   MaxOuts = 2
   EmitOn = TRUE
+  SampleMod = 1
+  SampleRes = 0
 INIT Init
 NEXT Next
 INVARIANT EmitProg
